@@ -303,7 +303,12 @@ func (p *service) processSubscribe(msg *message.SubscribeMessage) error {
 	for i, t := range topics {
 		rqos, err := p.topicsMgr.Subscribe(t, qos[i], &p.onpub)
 		if err != nil {
-			return err
+			// A rejected topic filter or QoS is reported with the failure
+			// return code; the other filters of the request are still
+			// processed and the SUBACK is always sent.
+			log.Warningf("(%s) Subscribing topic %q failed: %v", p.cid(), string(t), err)
+			retcodes = append(retcodes, message.QosFailure)
+			continue
 		}
 		p.sess.AddTopic(string(t), qos[i])
 
